@@ -50,6 +50,12 @@ using verif_atomic = vmt::atomic<T>;
 
 using vmt::world;
 
+// the lock's flag member is reached by the name the extraction found in the current core/Spinlock.h (the build passes
+// -DH_SPIN_FLAG=<name>, tools/extractors/spin.py): a rename of the private member changes nothing here
+#ifndef H_SPIN_FLAG
+#define H_SPIN_FLAG _flag
+#endif
+
 struct Rng
 {
   uint64_t s;
@@ -538,10 +544,10 @@ struct Runner
     g_plain_local = &plain_local;
     qtail.clear();
     // location ids: the sink was constructed before reset() → re-register its atomics in a fixed order
-    sink._global_filters_lock._flag._id = w.next_loc_id++;
+    sink._global_filters_lock.H_SPIN_FLAG._id = w.next_loc_id++;
     sink._new_filter._id = w.next_loc_id++;
     sink._log_level._id = w.next_loc_id++;
-    locname[sink._global_filters_lock._flag.id()] = "lock";
+    locname[sink._global_filters_lock.H_SPIN_FLAG.id()] = "lock";
     locname[sink._new_filter.id()] = "newf";
     locname[sink._log_level.id()] = "lvl";
     queue.assign(static_cast<size_t>(d.nfront) + 1, {});
